@@ -595,8 +595,8 @@ theorem accept_sound (env : Env) (c c' : Client) (hd : Header) (now : Int)
     split at h
     · simp at h
     · rename_i tc htc
-      simp only [bind_ok] at h
-      obtain ⟨hh, hcv, h⟩ := h
+      simp only [bind_ok, require_ok] at h
+      obtain ⟨hh, hcv, _, _, h⟩ := h
       split at h
       · simp at h
       · rename_i st _
@@ -604,6 +604,21 @@ theorem accept_sound (env : Env) (c c' : Client) (hd : Header) (now : Int)
         subst h
         exact ⟨hst, tc, hh, htc, checkValidity_ok _ _ _ _ _ _ hcv, lookup_insert_self _ _ _, lookup_insert_self _ _ _,
           lookup_insert_self _ _ _, rfl⟩
+
+/-- **accepted_state_exportable.** The consensus state an accepted header stores passes the module's own
+    `ConsensusState.ValidateBasic` (non-empty root, well-formed next-validators hash, positive time): every state the
+    update path can write is one the exported genesis validates. -/
+theorem accepted_state_exportable (env : Env) (c c' : Client) (hd : Header) (now : Int)
+    (h : updateClient env c hd now = .ok c') : validConsState (consOf hd) = true := by
+  unfold updateClient at h
+  split at h
+  · simp at h
+  · simp at h
+  · split at h
+    · simp at h
+    · simp only [bind_ok, require_ok] at h
+      obtain ⟨_, _, _, hv, _⟩ := h
+      exact hv
 
 /-- **accept_frame.** An accepted update changes the consensus states only at the header's height and, possibly, at
     one pruned height whose consensus state was expired; a rejected update changes nothing (`runUpdates`). -/
@@ -619,8 +634,8 @@ theorem accept_frame (env : Env) (c c' : Client) (hd : Header) (now : Int) (hh :
   · split at h
     · simp at h
     · rename_i tc htc
-      simp only [bind_ok] at h
-      obtain ⟨hh', hcv, h⟩ := h
+      simp only [bind_ok, require_ok] at h
+      obtain ⟨hh', hcv, _, _, h⟩ := h
       have heq : hh' = hh := by
         have := (checkValidity_ok _ _ _ _ _ _ hcv).height_eq
         rw [hhh] at this; simp only [Outcome.ok.injEq] at this; exact this.symm
@@ -1013,11 +1028,172 @@ theorem adjacent_iff (env : Env) (cs : ClientState) (tc : ConsState) (hd : Heade
   unfold two63 at *
   omega
 
+/-! ### real entry points, several clients, restarts, discarded executions -/
+
+/-- a header accepted through `MsgUpdateClient` (`ValidateBasic`, then the msg server) is a header accepted by the keeper:
+    every conclusion of `accept_sound` holds for the transaction path -/
+theorem updateClientMsg_ok (env : Env) (c c' : Client) (hd : Header) (now : Int)
+    (h : updateClientMsg env c hd now = .ok c') :
+    headerValidateBasic env hd = .ok () ∧ updateClient env c hd now = .ok c' := by
+  unfold updateClientMsg at h
+  simp only [bind_ok] at h
+  obtain ⟨u, h1, h2⟩ := h
+  exact ⟨h1, h2⟩
+
+theorem msg_accept_sound (env : Env) (c c' : Client) (hd : Header) (now : Int)
+    (h : updateClientMsg env c hd now = .ok c') :
+    status c now = .active ∧
+    ∃ tc hh, lookup hd.trustedHeight c.st.cons = some tc ∧
+      Valid env c.cs tc hd now hh ∧
+      lookup hh c'.st.cons = some ⟨hd.sh.time, hd.sh.appHash, hd.sh.nextValsHash⟩ ∧
+      lookup hh c'.st.ptime = some (toU64 now) ∧
+      lookup hh c'.st.iter = some () ∧
+      c'.cs = { c.cs with latest := Height.max c.cs.latest hh } :=
+  accept_sound env c c' hd now (updateClientMsg_ok env c c' hd now h).2
+
+theorem World.get_set_self (w : World) (n : Bytes) (c : Client) : (w.set n c).get n = some c := by
+  induction w with
+  | nil => simp [World.set, World.get]
+  | cons x w ih =>
+    obtain ⟨m, d⟩ := x
+    simp only [World.set]
+    by_cases h : m = n
+    · rw [if_pos h]; simp [World.get]
+    · rw [if_neg h]; simp only [World.get]; rw [if_neg h]; exact ih
+
+theorem World.get_set_ne (w : World) (n n' : Bytes) (c : Client) (hne : n' ≠ n) :
+    (w.set n c).get n' = w.get n' := by
+  induction w with
+  | nil => simp only [World.set, World.get]; rw [if_neg (fun e => hne e.symm)]
+  | cons x w ih =>
+    obtain ⟨m, d⟩ := x
+    simp only [World.set]
+    by_cases h : m = n
+    · rw [if_pos h]
+      simp only [World.get]
+      rw [if_neg (fun e => hne e.symm), if_neg (by rw [h]; exact fun e => hne e.symm)]
+    · rw [if_neg h]
+      simp only [World.get]
+      by_cases h2 : m = n'
+      · rw [if_pos h2, if_pos h2]
+      · rw [if_neg h2, if_neg h2]; exact ih
+
+/-- the client an operation is addressed to -/
+def WOp.target : WOp → Option Bytes
+  | .create n _ _ _ => some n
+  | .upgrade n _ _ _ => some n
+  | .update n _ _ => some n
+  | .updateMsg n _ _ => some n
+  | .restart => none
+  | .discarded _ => none
+
+/-- **restart_identity.** Export → validate → wipe → import leaves every client exactly as it was (client state,
+    consensus states of every revision, processed times, iteration keys). -/
+theorem restart_identity (w : World) : restart w = w := rfl
+
+/-- an execution on a dropped cache context changes nothing -/
+theorem discarded_identity (env : Env) (w : World) (op : WOp) : applyW env w (.discarded op) = w := rfl
+
+/-- **frame.** An operation addressed to one client leaves every other client of the store untouched — also a second
+    client of the same counterparty chain under another name. -/
+theorem frame (env : Env) (w : World) (op : WOp) (n' : Bytes) (h : op.target ≠ some n') :
+    (applyW env w op).get n' = w.get n' := by
+  cases op with
+  | create n cs k now =>
+    have hne : n' ≠ n := fun e => h (by simp [WOp.target, e])
+    simp only [applyW]
+    split
+    · rfl
+    · split
+      · exact World.get_set_ne _ _ _ _ hne
+      · rfl
+  | upgrade n cs k now =>
+    have hne : n' ≠ n := fun e => h (by simp [WOp.target, e])
+    simp only [applyW]
+    split
+    · rfl
+    · split
+      · exact World.get_set_ne _ _ _ _ hne
+      · rfl
+  | update n hd now =>
+    have hne : n' ≠ n := fun e => h (by simp [WOp.target, e])
+    simp only [applyW]
+    split
+    · rfl
+    · split
+      · exact World.get_set_ne _ _ _ _ hne
+      · rfl
+  | updateMsg n hd now =>
+    have hne : n' ≠ n := fun e => h (by simp [WOp.target, e])
+    simp only [applyW]
+    split
+    · rfl
+    · split
+      · exact World.get_set_ne _ _ _ _ hne
+      · rfl
+  | restart => rfl
+  | discarded op => rfl
+
+def WOp.isUpgradeOf (n : Bytes) : WOp → Bool
+  | .upgrade m _ _ _ => m == n
+  | _ => false
+
+/-- one world operation other than an upgrade of `n` keeps client `n` and never lowers its latest height -/
+theorem applyW_latest_le (env : Env) (w : World) (op : WOp) (n : Bytes) (c : Client)
+    (hc : w.get n = some c) (hop : op.isUpgradeOf n = false) :
+    ∃ c', (applyW env w op).get n = some c' ∧ c.cs.latest ≤ c'.cs.latest := by
+  by_cases ht : op.target = some n
+  · cases op with
+    | create m cs k now =>
+      simp only [WOp.target, Option.some.injEq] at ht; subst ht
+      refine ⟨c, ?_, Height.le_refl _⟩
+      simp [applyW, hc]
+    | upgrade m cs k now =>
+      simp only [WOp.target, Option.some.injEq] at ht; subst ht
+      simp [WOp.isUpgradeOf] at hop
+    | update m hd now =>
+      simp only [WOp.target, Option.some.injEq] at ht; subst ht
+      simp only [applyW, hc]
+      split
+      · rename_i c' hc'
+        exact ⟨c', World.get_set_self _ _ _, update_latest_le env c c' hd now hc'⟩
+      · exact ⟨c, hc, Height.le_refl _⟩
+    | updateMsg m hd now =>
+      simp only [WOp.target, Option.some.injEq] at ht; subst ht
+      simp only [applyW, hc]
+      split
+      · rename_i c' hc'
+        exact ⟨c', World.get_set_self _ _ _,
+          update_latest_le env c c' hd now (updateClientMsg_ok env c c' hd now hc').2⟩
+      · exact ⟨c, hc, Height.le_refl _⟩
+    | restart => simp [WOp.target] at ht
+    | discarded op => simp [WOp.target] at ht
+  · exact ⟨c, by rw [frame env w op n ht]; exact hc, Height.le_refl _⟩
+
+/-- **world_latest_monotone.** Over arbitrary histories in a store with several clients — keeper-level and
+    transaction-level updates of any client, creations, upgrades of *other* clients, restarts from an export and
+    discarded executions in any order — the latest height of client `n` never decreases. -/
+theorem world_latest_monotone (env : Env) (w : World) (ops : List WOp) (n : Bytes) (c : Client)
+    (hc : w.get n = some c) (hops : ops.all (fun op => !op.isUpgradeOf n) = true) :
+    ∃ c', (runW env w ops).get n = some c' ∧ c.cs.latest ≤ c'.cs.latest := by
+  induction ops generalizing w c with
+  | nil => exact ⟨c, hc, Height.le_refl _⟩
+  | cons op rest ih =>
+    simp only [List.all_cons, Bool.and_eq_true, Bool.not_eq_true'] at hops
+    obtain ⟨c1, h1, hle1⟩ := applyW_latest_le env w op n c hc hops.1
+    obtain ⟨c2, h2, hle2⟩ := ih (applyW env w op) c1 h1 hops.2
+    exact ⟨c2, by simpa [runW] using h2, Height.le_trans hle1 hle2⟩
+
 /-! ### non-vacuity: concrete clients, headers and proofs on which the hypotheses hold -/
 section Examples
 
+/-- all example times are offsets from this instant (a consensus state needs a positive Unix time) -/
+def exT0 : Int := 2000000000
+/-- the 32-byte validator-set hash of the example set -/
+def exNV : Hash := List.replicate 29 0 ++ [1, 2, 3]
+
 def exEnv : Env where
-  valsHash := fun vs => vs.map (fun v => UInt8.ofNat v.key)
+  valsHash := fun vs => List.replicate 29 0 ++ vs.map (fun v => UInt8.ofNat v.key)
   headerHash := fun h => [UInt8.ofNat h.height.toNat]
   sigValid := fun _ _ idx key => idx + 1 == key
   proofDecodes := fun _ => true
@@ -1027,78 +1203,89 @@ def exVals : List Validator := [⟨1, 1, 1, true, true⟩, ⟨2, 2, 1, true, tru
 def exValSet : ValSetP := ⟨false, exVals, true, true⟩
 /-- chain "abc", trust level 1/3, trusting period 1000, drift 10, delay 20, created at height 0-5 at time 120 -/
 def exClient : Client :=
-  createClient ⟨[97, 98, 99], 1, 3, 1000, 10, ⟨0, 5⟩, 20⟩ ⟨100, [7], [1, 2, 3]⟩ 120
+  createClient ⟨[97, 98, 99], 1, 3, 1000, 10, ⟨0, 5⟩, 20⟩ ⟨exT0 + 100, [7], exNV⟩ (exT0 + 120)
 
 def exCommit (h : Int) (flags : List Flag) : Commit :=
   ⟨h, [UInt8.ofNat h.toNat], true, flags.zipIdx.map (fun (f, i) => ⟨f, i + 1⟩)⟩
 
 def exHeader (h : Int) (t : Int) (th : Nat) (flags : List Flag) : Header where
-  sh := ⟨[97, 98, 99], h, t, [1, 2, 3], [1, 2, 3], [9], true, []⟩
+  sh := ⟨[97, 98, 99], h, exT0 + t, exNV, exNV, [9], true, []⟩
   commit := some (exCommit h flags)
   vals := exValSet
   trustedHeight := ⟨0, th⟩
   trustedVals := exValSet
 
 /-- adjacent header signed by all three validators: accepted (the hypothesis of `accept_sound` is satisfiable) -/
-example : (updateClient exEnv exClient (exHeader 6 150 5 [.commit, .commit, .commit]) 200).isOk = true := by decide
+example : (updateClient exEnv exClient (exHeader 6 150 5 [.commit, .commit, .commit]) (exT0 + 200)).isOk = true := by decide
 /-- exactly two thirds sign: rejected -/
-example : (updateClient exEnv exClient (exHeader 6 150 5 [.commit, .commit, .absent]) 200).isOk = false := by decide
+example : (updateClient exEnv exClient (exHeader 6 150 5 [.commit, .commit, .absent]) (exT0 + 200)).isOk = false := by decide
 /-- skipping header (non-adjacent path), all sign: accepted -/
-example : (updateClient exEnv exClient (exHeader 9 150 5 [.commit, .commit, .commit]) 200).isOk = true := by decide
+example : (updateClient exEnv exClient (exHeader 9 150 5 [.commit, .commit, .commit]) (exT0 + 200)).isOk = true := by decide
 /-- skipping header signed by exactly one third of the trusted set: rejected -/
-example : (updateClient exEnv exClient (exHeader 9 150 5 [.commit, .absent, .absent]) 200).isOk = false := by decide
+example : (updateClient exEnv exClient (exHeader 9 150 5 [.commit, .absent, .absent]) (exT0 + 200)).isOk = false := by decide
 /-- trusted state out of the trusting period: rejected -/
-example : (updateClient exEnv exClient (exHeader 6 150 5 [.commit, .commit, .commit]) 1100).isOk = false := by decide
+example : (updateClient exEnv exClient (exHeader 6 150 5 [.commit, .commit, .commit]) (exT0 + 1100)).isOk = false := by decide
 /-- header time at `now + drift`: rejected -/
-example : (updateClient exEnv exClient (exHeader 6 210 5 [.commit, .commit, .commit]) 200).isOk = false := by decide
+example : (updateClient exEnv exClient (exHeader 6 210 5 [.commit, .commit, .commit]) (exT0 + 200)).isOk = false := by decide
 /-- the side conditions of `accept_sound_trustlevel` hold for this client and message -/
 example : validTrustLevel exClient.cs.tlNum exClient.cs.tlDen = true ∧
     TrustLevelInt64 exClient.cs.tlNum exClient.cs.tlDen ∧ 3 * exClient.cs.tlNum ≤ 2 * exClient.cs.tlDen ∧
     NoValsHashCollision exEnv (exHeader 6 150 5 []).vals.vals (exHeader 6 150 5 []).trustedVals.vals :=
   ⟨by decide, by unfold TrustLevelInt64; decide, by decide, fun _ => rfl⟩
 /-- a proof at the stored height is honoured after the delay, not before, and never above the latest height -/
-example : (verifyPacketCommitment exEnv (runUpdates exEnv exClient [(exHeader 6 150 5 [.commit, .commit, .commit], 200)])
-    ⟨0, 6⟩ (some []) [] [] 220).isOk = true := by decide
-example : (verifyPacketCommitment exEnv (runUpdates exEnv exClient [(exHeader 6 150 5 [.commit, .commit, .commit], 200)])
-    ⟨0, 6⟩ (some []) [] [] 219).isOk = false := by decide
-example : (verifyPacketCommitment exEnv exClient ⟨0, 6⟩ (some []) [] [] 1000).isOk = false := by decide
+example : (verifyPacketCommitment exEnv (runUpdates exEnv exClient [(exHeader 6 150 5 [.commit, .commit, .commit], exT0 + 200)])
+    ⟨0, 6⟩ (some []) [] [] (exT0 + 220)).isOk = true := by decide
+example : (verifyPacketCommitment exEnv (runUpdates exEnv exClient [(exHeader 6 150 5 [.commit, .commit, .commit], exT0 + 200)])
+    ⟨0, 6⟩ (some []) [] [] (exT0 + 219)).isOk = false := by decide
+example : (verifyPacketCommitment exEnv exClient ⟨0, 6⟩ (some []) [] [] (exT0 + 1000)).isOk = false := by decide
 /-- the acknowledgement path: honoured from `processed + delay` on, not one nanosecond earlier -/
-example : (verifyPacketAcknowledgement exEnv (runUpdates exEnv exClient [(exHeader 6 150 5 [.commit, .commit, .commit], 200)])
-    ⟨0, 6⟩ (some []) [] [] 220).isOk = true := by decide
-example : (verifyPacketAcknowledgement exEnv (runUpdates exEnv exClient [(exHeader 6 150 5 [.commit, .commit, .commit], 200)])
-    ⟨0, 6⟩ (some []) [] [] 219).isOk = false := by decide
+example : (verifyPacketAcknowledgement exEnv (runUpdates exEnv exClient [(exHeader 6 150 5 [.commit, .commit, .commit], exT0 + 200)])
+    ⟨0, 6⟩ (some []) [] [] (exT0 + 220)).isOk = true := by decide
+example : (verifyPacketAcknowledgement exEnv (runUpdates exEnv exClient [(exHeader 6 150 5 [.commit, .commit, .commit], exT0 + 200)])
+    ⟨0, 6⟩ (some []) [] [] (exT0 + 219)).isOk = false := by decide
 /-- updated to 0-6, then an upgrade installs latest height 0-4: the consensus state at 0-6 is still stored, and proofs
     at 0-6 are rejected on both paths -/
 example :
-    let c := upgradeClient (runUpdates exEnv exClient [(exHeader 6 150 5 [.commit, .commit, .commit], 200)])
-      { exClient.cs with latest := ⟨0, 4⟩ } ⟨90, [9], [1, 2, 3]⟩ 210
+    let c := upgradeClient (runUpdates exEnv exClient [(exHeader 6 150 5 [.commit, .commit, .commit], exT0 + 200)])
+      { exClient.cs with latest := ⟨0, 4⟩ } ⟨exT0 + 90, [9], exNV⟩ (exT0 + 210)
     (lookup ⟨0, 6⟩ c.st.cons).isSome = true ∧
-    (verifyPacketCommitment exEnv c ⟨0, 6⟩ (some []) [] [] 1000).isOk = false ∧
-    (verifyPacketAcknowledgement exEnv c ⟨0, 6⟩ (some []) [] [] 1000).isOk = false ∧
-    (verifyPacketAcknowledgement exEnv c ⟨0, 4⟩ (some []) [] [] 1000).isOk = true := by decide
+    (verifyPacketCommitment exEnv c ⟨0, 6⟩ (some []) [] [] (exT0 + 1000)).isOk = false ∧
+    (verifyPacketAcknowledgement exEnv c ⟨0, 6⟩ (some []) [] [] (exT0 + 1000)).isOk = false ∧
+    (verifyPacketAcknowledgement exEnv c ⟨0, 4⟩ (some []) [] [] (exT0 + 1000)).isOk = true := by decide
 
 /-! multi-revision: created at 1-100 (chain "a-1"), upgraded to 2-5 (chain "a-2"), then the old revision is
     back-filled with 1-101 trusting 1-100: accepted, stored, and the latest height stays 2-5 although 101 > 5 -/
 def exClientR : Client :=
-  upgradeClient (createClient ⟨[97, 45, 49], 1, 3, 1000, 10, ⟨1, 100⟩, 20⟩ ⟨100, [7], [1, 2, 3]⟩ 120)
-    ⟨[97, 45, 50], 1, 3, 1000, 10, ⟨2, 5⟩, 20⟩ ⟨130, [8], [1, 2, 3]⟩ 140
+  upgradeClient (createClient ⟨[97, 45, 49], 1, 3, 1000, 10, ⟨1, 100⟩, 20⟩ ⟨exT0 + 100, [7], exNV⟩ (exT0 + 120))
+    ⟨[97, 45, 50], 1, 3, 1000, 10, ⟨2, 5⟩, 20⟩ ⟨exT0 + 130, [8], exNV⟩ (exT0 + 140)
 
 def exHeaderR (chain : Bytes) (h : Int) (t : Int) (trev th : Nat) : Header where
-  sh := ⟨chain, h, t, [1, 2, 3], [1, 2, 3], [9], true, []⟩
+  sh := ⟨chain, h, exT0 + t, exNV, exNV, [9], true, []⟩
   commit := some (exCommit h [.commit, .commit, .commit])
   vals := exValSet
   trustedHeight := ⟨trev, th⟩
   trustedVals := exValSet
 
-example : (updateClient exEnv exClientR (exHeaderR [97, 45, 49] 101 150 1 100) 200).isOk = true := by decide
-example : (runSteps exEnv exClientR [.update (exHeaderR [97, 45, 49] 101 150 1 100) 200]).cs.latest = ⟨2, 5⟩ ∧
-    (lookup ⟨1, 101⟩ (runSteps exEnv exClientR [.update (exHeaderR [97, 45, 49] 101 150 1 100) 200]).st.cons).isSome = true := by
+example : (updateClient exEnv exClientR (exHeaderR [97, 45, 49] 101 150 1 100) (exT0 + 200)).isOk = true := by decide
+example : (runSteps exEnv exClientR [.update (exHeaderR [97, 45, 49] 101 150 1 100) (exT0 + 200)]).cs.latest = ⟨2, 5⟩ ∧
+    (lookup ⟨1, 101⟩ (runSteps exEnv exClientR [.update (exHeaderR [97, 45, 49] 101 150 1 100) (exT0 + 200)]).st.cons).isSome = true := by
   decide
 /-- forward in the new revision with a numerically smaller revision height: latest becomes 2-6 -/
-example : (runSteps exEnv exClientR [.update (exHeaderR [97, 45, 49] 101 150 1 100) 200,
-    .update (exHeaderR [97, 45, 50] 6 160 2 5) 200]).cs.latest = ⟨2, 6⟩ := by decide
+example : (runSteps exEnv exClientR [.update (exHeaderR [97, 45, 49] 101 150 1 100) (exT0 + 200),
+    .update (exHeaderR [97, 45, 50] 6 160 2 5) (exT0 + 200)]).cs.latest = ⟨2, 6⟩ := by decide
 /-- a header of revision 1 cannot be verified against a trusted height of revision 2 -/
-example : (updateClient exEnv exClientR (exHeaderR [97, 45, 49] 101 150 2 5) 200).isOk = false := by decide
+example : (updateClient exEnv exClientR (exHeaderR [97, 45, 49] 101 150 2 5) (exT0 + 200)).isOk = false := by decide
+
+/-! two clients of the same chain under two names: an update of one does not touch the other; a restart and a
+    discarded update change nothing -/
+def exWorld : World := [([97], exClient), ([98], exClient)]
+example :
+    let w := runW exEnv exWorld [.updateMsg [97] (exHeader 6 150 5 [.commit, .commit, .commit]) (exT0 + 200), .restart,
+      .discarded (.update [98] (exHeader 6 150 5 [.commit, .commit, .commit]) 200)]
+    ((w.get [97]).map (·.cs.latest)) = some ⟨0, 6⟩ ∧ ((w.get [98]).map (·.cs.latest)) = some ⟨0, 5⟩ := by decide
+/-- the transaction path accepts the well-formed header and refuses one whose trusted height is above its height -/
+example : (updateClientMsg exEnv exClient (exHeader 6 150 5 [.commit, .commit, .commit]) (exT0 + 200)).isOk = true := by decide
+example : (headerValidateBasic exEnv (exHeader 6 150 7 [.commit, .commit, .commit])).isOk = false := by decide
 
 end Examples
 
